@@ -53,7 +53,7 @@ prop("C02",
      COMMON_ASSUMPTIONS)
 
 prop("C13",
-     ["OW3", "SD1", "NS1", "ST1", "AO1"],
+     ["OW3", "SD1", "NS1", "ST1", "AO1", "SF1"],
      "Dispatch/arity and operand order of the scale-graph evaluator, number-of-scales inference shape, status test placement, "
      "channel->group->file lookup order with each scope read from the complete property map. Purity: alias/in-place analysis of every scale method and the helpers it hands data to (astype(copy=False), views, out=, "
      "augmented assignment, mutating methods, interprocedural summaries).",
@@ -61,7 +61,7 @@ prop("C13",
      COMMON_ASSUMPTIONS)
 
 prop("C14",
-     ["DT1", "DT2", "DT3", "DT4", "LN1", "NK2"],
+     ["DT1", "DT2", "DT3", "DT4", "LN1", "NK2", "SF1"],
      "Abstract dtype interpretation of every scale method over dtype witnesses (zero-length arrays, Python-scalar coefficients; NumPy as "
      "oracle of its own promotion rules) against the table read from MultiScaling._compute_scale_dtype, for every scaling class x real "
      "numeric raw dtype (thorough: both byte orders, NumPy-scalar coefficients, all Add/Subtract pairs); dtype source of every empty "
@@ -93,7 +93,7 @@ prop("C01",
      COMMON_ASSUMPTIONS)
 
 prop("C03",
-     ["MP1", "MP3", "TS1", "OFS1", "LN1", "BL3", "BL4", "CE1", "IN1", "SZ1"],
+     ["MP1", "MP3", "TS1", "OFS1", "LN1", "BL3", "BL4", "CE1", "IN1", "SZ1", "OW3"],
      "One timestamp-representation switch on every reader->user path; scaling applied exactly once by scaled accessors and never by raw "
      "ones, sibling three-way decisions agree; a channel without data type never reaches the reader in eager mode; chunk offsets are "
      "snapshots of the running count; one funnel for value counts; byte order and timestamp layout threaded on every decoder path; "
@@ -102,8 +102,9 @@ prop("C03",
      COMMON_ASSUMPTIONS)
 
 prop("C04",
-     ["CS1", "ES1", "CS2", "NT1", "BD1", "CE1", "OW2"],
-     "Shape conditions of the window arithmetic only: positional loop counters advanced on every path (continue included), segment numbering "
+     ["CS1", "ES1", "CS2", "NT1", "BD1", "CE1", "OW2", "LN1"],
+     "Shape conditions of the window arithmetic only: the per-segment counts of the offset index come from the one counting function, each "
+     "computed in its own round of the loop over the segments; positional loop counters advanced on every path (continue included), segment numbering "
      "starts at the window's first segment with first/last-segment adjustments present, data and scaler arrays sliced alike, optional "
      "arguments tested with `is None`, chunk offset/count passed to the segment reader depend on the window start/end with truncated-final-chunk "
      "awareness, offset arrays shared only after an element-complete comparison, path->position dictionaries shared only between object "
@@ -112,7 +113,7 @@ prop("C04",
      COMMON_ASSUMPTIONS)
 
 prop("C09",
-     ["MP2", "TM1", "CO1", "DF1", "MP4", "NC1"],
+     ["MP2", "TM1", "CO1", "DF1", "MP4", "NC1", "BL6"],
      "Tag check dominating every segment data read; ToC mask parsed little-endian; coordinate-space analysis of the seeks while parsing the "
      "index stream and reaching the next lead-in on every iteration; index/data mode passed explicitly and selecting the tag; index-only "
      "detection evaluated over the constructor's four input scenarios and guarding every data path; None-check contradiction on the data "
